@@ -101,6 +101,14 @@ example : cmKey "Fe".toList (some 0) = "Fe".toList ∧ cmKey "Fe".toList (some 3
     ∧ cmKey "O".toList (some (-2)) = "O2-".toList ∧ cmKey "Cl-".toList none = "Cl1-".toList
     ∧ cmKey "Ca2+".toList none = "Ca2+".toList ∧ cmKey "Fe2+".toList (some 3) = "Fe3+".toList := by decide +kernel
 
+/-- for an element symbol (not ending in a digit or sign) `Xray.f0` of the element looks up the
+    symbol itself and of an ion with charge `q` the entry `symbol<|q|><+|->` -/
+theorem cm_key_of_symbol (s : Str) (c : Char) (hc : cmSuffixChar c = false) (q : Int) :
+    cmKey (s ++ [c]) (some q)
+      = if q = 0 then s ++ [c]
+        else (s ++ [c]) ++ (toString q.natAbs).toList.reverse ++ [if q > 0 then '+' else '-'] :=
+  cmKey_of_symbol s c hc q
+
 /-- the CFML symbol / charge split: one-letter symbols are recognised by the digit in second
     place, two-letter symbols are capitalised -/
 example : splitState "V2 ".toList = some ("V".toList, 2) ∧ splitState "MN2".toList = some ("Mn".toList, 2)
